@@ -10,8 +10,8 @@ from ..core import unhx
 THEOREMS = ['pick_precedence', 'load_uses_effective', 'database_precedence', 'logfile_precedence', 'date_format_precedence', 'maxdepth_precedence', 'today_precedence', 'config_entries_iff_loaded', 'explicit_config_missing_is_error', 'explicit_config_loaded', 'no_database_is_empty_book', 'empty_book_same_parse']
 LEVEL = 'proof'
 RULE = ('the full product {flag set/unset} x {env set/unset} x {config entry set / unset / file absent} x config location {default, --config, HR_CONFIG} '
-        'for database, logfile, date-format and maxdepth, flag x config for the current date, with a distinguishable value at every level; explicitly '
-        'named configuration files that exist / do not exist; --no-database with and without a food.yaml; non-trivial = >= 2 sources set; distinct by combination')
+        'for database, logfile, date-format and maxdepth, flag x config for the current date, with a distinguishable value at every level, and with an explicit flag / environment value that equals the built-in default; explicitly '
+        'named configuration files that exist / do not exist; --no-database with and without a food.yaml and with a recipe book named by flag / environment / configuration file; non-trivial = >= 2 sources set; distinct by combination')
 ASSUMPTIONS = ['urfave/cli flag/env lookup and gcfg parsing are modelled, not verified; the real Load() and GetApp() run in-process with a scratch $HOME']
 
 LAYOUT = {'flag': '2006-01-02', 'env': '02.01.2006', 'cfg': '2006.01.02', 'default': '2006/01/02'}
@@ -46,8 +46,15 @@ def winner(flag, env, cfg):
     return 'flag' if flag else 'env' if env else 'cfg' if cfg == 'set' else 'default'
 
 
-def build(setting, flag, env, cfg, where, variant=0):
+def build(setting, flag, env, cfg, where, variant=0, explicit_default=None):
+    """explicit_default='flag' / 'env': that source is given explicitly with the value that is also the built-in default
+    (an explicit value wins even when it happens to equal the default)"""
     w = winner(flag, env, cfg)
+    vflag = 'default' if explicit_default == 'flag' else 'flag'
+    venv = 'default' if explicit_default == 'env' else 'env'
+    w = {'flag': vflag, 'env': venv}.get(w, w)
+    DBN = {'flag': 'food_flag.yaml', 'env': 'food_env.yaml', 'default': 'food.yaml'}
+    LGN = {'flag': 'log_flag.yaml', 'env': 'log_env.yaml', 'default': 'log.yaml'}
     files = {}
     g, e, entries = {}, {}, {}
     path, args = ['csv', 'log'], ()
@@ -56,9 +63,9 @@ def build(setting, flag, env, cfg, where, variant=0):
         for lvl, name in (('flag', 'food_flag.yaml'), ('env', 'food_env.yaml'), ('cfg', 'food_cfg.yaml'), ('default', 'food.yaml')):
             files[name.encode()] = ('src_%s:\n  calories: 1\n' % lvl).encode()
         if flag:
-            g['database'] = 'food_flag.yaml'
+            g['database'] = DBN[vflag]
         if env:
-            e['database'] = 'food_env.yaml'
+            e['database'] = DBN[venv]
         if cfg == 'set':
             entries['DbFileName'] = 'food_cfg.yaml'
         path = ['csv', 'database']
@@ -67,18 +74,18 @@ def build(setting, flag, env, cfg, where, variant=0):
         for lvl, name in (('flag', 'log_flag.yaml'), ('env', 'log_env.yaml'), ('cfg', 'log_cfg.yaml'), ('default', 'log.yaml')):
             files[name.encode()] = ('2021/01/24:\n  src_%s: 1\n' % lvl).encode()
         if flag:
-            g['logfile'] = 'log_flag.yaml'
+            g['logfile'] = LGN[vflag]
         if env:
-            e['logfile'] = 'log_env.yaml'
+            e['logfile'] = LGN[venv]
         if cfg == 'set':
             entries['LogFileName'] = 'log_cfg.yaml'
         expect = ('out', ('2021-01-24,src_%s,1.000\n' % w).encode())
     elif setting == 'dateFormat':
         files[b'log.yaml'] = ('%s:\n  a: 1\n' % fmt(DAY, LAYOUT[w])).encode()
         if flag:
-            g['dateFormat'] = LAYOUT['flag']
+            g['dateFormat'] = LAYOUT[vflag]
         if env:
-            e['dateFormat'] = LAYOUT['env']
+            e['dateFormat'] = LAYOUT[venv]
         if cfg == 'set':
             entries['DateFormat'] = LAYOUT['cfg']
         expect = ('out', b'2021-01-24,a,1.000\n')
@@ -87,9 +94,9 @@ def build(setting, flag, env, cfg, where, variant=0):
         # variant 0: a chain of n-1 references must resolve; variant 1: a chain of n references must not
         files[b'food.yaml'] = chain(n - 1 if variant == 0 else n)
         if flag:
-            g['maxdepth'] = DEPTH['flag']
+            g['maxdepth'] = DEPTH[vflag]
         if env:
-            e['maxdepth'] = DEPTH['env']
+            e['maxdepth'] = DEPTH[venv]
         if cfg == 'set':
             entries['MaxDepth'] = DEPTH['cfg']
         path = ['csv', 'database-resolved']
@@ -109,7 +116,8 @@ def build(setting, flag, env, cfg, where, variant=0):
     gg = {'noColor': True}
     gg.update(g)
     c = AppCase(path, args, g=gg, env=e, cfg=cfgd, files=files, disk=True,
-                meta={'kind': 'load:' + setting, 'setting': setting, 'flag': flag, 'env': env, 'cfg': cfg, 'where': where, 'winner': w, 'expect': expect, 'variant': variant})
+                meta={'kind': 'load:' + setting + (' (explicit %s = default value)' % explicit_default if explicit_default else ''), 'setting': setting, 'flag': flag, 'env': env,
+                      'cfg': cfg, 'where': where, 'winner': w, 'expect': expect, 'variant': str(variant) + (explicit_default or '')})
     return c
 
 
@@ -118,6 +126,15 @@ def run(ctx):
     for setting, flag, env, cfg, where in combos():
         for variant in ((0, 1) if setting == 'maxdepth' else (0,)):
             cases.append(build(setting, flag, env, cfg, where, variant))
+    # an explicit flag / environment value that equals the built-in default still beats the configuration file
+    for setting in ('database', 'logfile', 'dateFormat', 'maxdepth'):
+        for src in ('flag', 'env'):
+            for where in ('default', 'flag', 'env'):
+                for variant in ((0, 1) if setting == 'maxdepth' else (0,)):
+                    cases.append(build(setting, src == 'flag', src == 'env', 'set', where, variant, explicit_default=src))
+                    if src == 'env':
+                        # ... and an explicit environment value equal to the default is still beaten by the flag
+                        cases.append(build(setting, True, True, 'set', where, variant, explicit_default='env'))
     ctx.exhaustive = True
     # the current date: --today > [Global] Now
     for flag in (False, True):
@@ -198,6 +215,26 @@ def run(ctx):
                         meta={'kind': 'empty-book:' + ' '.join(path), 'setting': 'noDatabase', 'flag': False, 'env': False, 'cfg': 'absent', 'where': 'none', 'winner': '-', 'expect': None})
             cases += [a, b]
             pairs.append((a, b))
+        if path != ['stats']:
+            # --no-database also beats a recipe book named by flag, environment or configuration file
+            for src in ('flag', 'env', 'cfg'):
+                files = {b'log.yaml': log, b'named.yaml': book}
+                g = {'noColor': True, 'today': '2021/01/28', 'noDatabase': True}
+                e, cfgd = {}, None
+                if src == 'flag':
+                    g['database'] = 'named.yaml'
+                elif src == 'env':
+                    e['database'] = 'named.yaml'
+                else:
+                    cfgd = {'where': 'flag', 'path': 'my.cfg', 'exists': True, 'entries': {'DbFileName': 'named.yaml'}}
+                    g['config'] = 'my.cfg'
+                a = AppCase(path, args, g=g, env=e, cfg=cfgd, files=files, disk=True,
+                            meta={'kind': 'no-database (book named by %s):' % src + ' '.join(path), 'setting': 'noDatabase', 'flag': True, 'env': src == 'env', 'cfg': 'set' if src == 'cfg' else 'absent',
+                                  'where': 'none', 'winner': '-', 'expect': None, 'have_file': True})
+                b = AppCase(path, args, g={'noColor': True, 'today': '2021/01/28'}, files={b'log.yaml': log, b'food.yaml': b''}, disk=True,
+                            meta={'kind': 'empty-book:' + ' '.join(path), 'setting': 'noDatabase', 'flag': False, 'env': False, 'cfg': 'absent', 'where': 'none', 'winner': '-', 'expect': None})
+                cases += [a, b]
+                pairs.append((a, b))
     impl, model = run_apps(ctx, cases)
     for c in cases:
         i = impl[c.id]
